@@ -149,6 +149,10 @@ def build(spec, owned=None):
     spec = copy.deepcopy(spec)
     k = spec["kind"]
     p = spec.get("params", {})
+    if spec.get("str_labels") and "classes" in p:
+        # the caller names the classes with strings and marks a missing label with None
+        p["classes"] = [label_name(c) for c in p["classes"]]
+        p["missing_label"] = None
     if owned is not None:
         for name, v in p.items():
             if isinstance(v, dict):
@@ -267,6 +271,21 @@ def gen_cost_matrix(g: SimRng, k):
 
 
 def gen_clf_spec(g: SimRng, kind, classes, allow_cost=True):
+    spec = _gen_clf_spec(g, kind, classes, allow_cost)
+    if allow_cost and g.fork("str").chance(0.2):
+        # string class names and missing_label=None (the whole object tree uses the same coding)
+        def mark(sp):
+            sp["str_labels"] = True
+            sp.get("params", {}).pop("missing_label", None)
+            for sub in [sp.get("inner")] + list(sp.get("members", [])):
+                if sub:
+                    mark(sub)
+
+        mark(spec)
+    return spec
+
+
+def _gen_clf_spec(g: SimRng, kind, classes, allow_cost=True):
     k = len(classes)
     p = {"classes": list(classes), "random_state": g.randrange(0, 100)}
     if allow_cost:
@@ -305,13 +324,13 @@ def gen_clf_spec(g: SimRng, kind, classes, allow_cost=True):
         return {"kind": "skl_clf", "est": g.pick(["gnb", "lr", "dtc", "sgdc", "gnb", "rf_warm", "dtc_rs"]), "est_seed": g.randrange(0, 50), "faulty": True, "params": p}
     if kind == "sliding":
         p.pop("cost_matrix", None)
-        inner = gen_clf_spec(g, g.pick(["pwc", "skl_clf"]), classes, allow_cost=False)
+        inner = _gen_clf_spec(g, g.pick(["pwc", "skl_clf"]), classes, allow_cost=False)
         inner["params"].pop("missing_label", None)
         inner["params"]["random_state"] = p["random_state"]
         p.update(window_size=g.pick([1, 2, 3, 5, 8, None]), only_labeled=g.chance(0.5))
         return {"kind": "sliding", "inner": inner, "params": p}
     if kind == "annot_ens":
-        members = [gen_clf_spec(g, g.pick(["pwc", "skl_clf"]), classes, allow_cost=False) for _ in range(g.pick([2, 3]))]
+        members = [_gen_clf_spec(g, g.pick(["pwc", "skl_clf"]), classes, allow_cost=False) for _ in range(g.pick([2, 3]))]
         for m in members:
             m["params"].pop("missing_label", None)
         p["voting"] = g.pick(["hard", "soft"])
@@ -400,8 +419,25 @@ def gen_dataset(g: SimRng, d, classes, task, na=0, pattern=None, n=None):
     return {"X": X.tolist(), "y": yl, "w": None if w is None else w.tolist(), "pattern": pattern, "scale": scale}
 
 
+def label_name(c):
+    """String form of a numeric class label; lexicographic order == numeric order (values 0..99)."""
+    return f"c{int(c):02d}"
+
+
+def decode_labels(a):
+    """Inverse of label_name for arrays returned by an estimator in string-label mode."""
+    a = np.asarray(a)
+    return np.array([float(str(v)[1:]) for v in a.ravel()], dtype=float).reshape(a.shape)
+
+
 def encode_missing(y, spec):
-    """The oracles work on NaN-coded labels; the estimator receives its own missing-label sentinel."""
+    """The oracles work on NaN-coded numeric labels; the estimator receives its own label coding: a missing-label
+    sentinel, or -- in string-label mode -- class names in an object array with None for a missing label."""
+    if spec.get("str_labels"):
+        out = np.full(np.shape(y), None, dtype=object)
+        lab = ~np.isnan(y)
+        out[lab] = [label_name(v) for v in np.asarray(y)[lab]]
+        return out
     ml = spec.get("params", {}).get("missing_label")
     if ml is None:
         return y
@@ -857,7 +893,7 @@ class C13Check(LifeCheckBase):
         if len(window) == 0:
             return True
         Xw = np.array([a for a, _, _ in window])
-        yw = np.array([b for _, b, _ in window], dtype=float)
+        yw = encode_missing(np.array([b for _, b, _ in window], dtype=float), spec["inner"])
         ww = None if window[0][2] is None else np.array([c for _, _, c in window], dtype=float)
         _FAULT["armed"] = bool(op.get("fail"))  # the reference meets the same collaborator failure
         try:
@@ -1001,7 +1037,7 @@ class C11Check(LifeCheckBase):
         "Distinct by (subject, wrapped estimator, probes, faults)."
     )
     fault_kinds = ["peer_fit_failed"]
-    probes_expected = ["fallback_prediction_used", "fewer_classes_seen", "zero_labels", "one_class_only", "cost_matrix_decision", "planted_class_checked", "schedule_dependent_state", "sampled_not_schedule_dependent"]
+    probes_expected = ["string_class_labels", "fallback_prediction_used", "fewer_classes_seen", "zero_labels", "one_class_only", "cost_matrix_decision", "planted_class_checked", "schedule_dependent_state", "sampled_not_schedule_dependent"]
     assumptions = [
         "only wrapped estimators whose own predict is the arg-max of their predict_proba are used, so 'most probable class' is not over-strict",
         "cost optimality is judged up to ties (1e-9)",
@@ -1097,6 +1133,9 @@ class C11Check(LifeCheckBase):
         K = len(classes)
         try:
             cls_ = np.asarray(est.classes_)
+            if spec.get("str_labels"):
+                ctx.probe("string_class_labels")
+                cls_ = decode_labels(cls_)
         except Exception:
             return True
         if len(cls_) != K or not np.array_equal(cls_, np.array(sorted(classes))):
@@ -1155,6 +1194,8 @@ class C11Check(LifeCheckBase):
         # decisions
         try:
             yp = np.asarray(est.predict(Xq))
+            if spec.get("str_labels"):
+                yp = decode_labels(yp)
         except Exception as e:
             ctx.violate("predict-raises", subj, f"op {t}: predict raised {type(e).__name__}: {str(e)[:120]}", dict(cond, exc=type(e).__name__))
             return False
